@@ -22,6 +22,16 @@ import (
 type Hook struct {
 	Enter func(op, ptr string, n int) error
 	Exit  func(op, ptr string, err error)
+	// EnterCtx, when set, is used instead of Enter for the calls that carry a context
+	// (CreateFile, OpenFile, TombstoneFile, Update), so a store can honour cancellation.
+	EnterCtx func(ctx context.Context, op, ptr string, n int) error
+}
+
+func (h *Hook) enterCtx(ctx context.Context, op, ptr string, n int) error {
+	if h != nil && h.EnterCtx != nil {
+		return h.EnterCtx(ctx, op, ptr, n)
+	}
+	return h.enter(op, ptr, n)
 }
 
 func (h *Hook) enter(op, ptr string, n int) error {
@@ -76,7 +86,7 @@ type memWriterAbort struct{ *MemWriter }
 func (w memWriterAbort) Abort() error { return w.MemWriter.abort() }
 
 func (d *MemData) CreateFile(ctx context.Context) (io.WriteCloser, []byte, error) {
-	if err := d.Hook.enter("CreateFile", "", 0); err != nil {
+	if err := d.Hook.enterCtx(ctx, "CreateFile", "", 0); err != nil {
 		d.Hook.exit("CreateFile", "", err)
 		return nil, nil, err
 	}
@@ -156,7 +166,7 @@ type MemHandle struct {
 
 func (d *MemData) OpenFile(ctx context.Context, ptrBytes []byte) (io.ReadSeekCloser, error) {
 	ptr := string(ptrBytes)
-	if err := d.Hook.enter("OpenFile", ptr, 0); err != nil {
+	if err := d.Hook.enterCtx(ctx, "OpenFile", ptr, 0); err != nil {
 		d.Hook.exit("OpenFile", ptr, err)
 		return nil, err
 	}
@@ -260,7 +270,7 @@ func (h *MemHandle) Close() error {
 
 func (d *MemData) TombstoneFile(ctx context.Context, ptrBytes []byte) error {
 	ptr := string(ptrBytes)
-	if err := d.Hook.enter("TombstoneFile", ptr, 0); err != nil {
+	if err := d.Hook.enterCtx(ctx, "TombstoneFile", ptr, 0); err != nil {
 		d.Hook.exit("TombstoneFile", ptr, err)
 		return err
 	}
@@ -340,7 +350,7 @@ type MemMeta struct {
 func NewMemMeta() *MemMeta { return &MemMeta{files: map[string]bs.FileMetadata{}} }
 
 func (m *MemMeta) Update(ctx context.Context, writes []bs.WriteOperation, deletes []bs.DeleteOperation) error {
-	if err := m.Hook.enter("Update", updateDesc(writes, deletes), len(writes)+len(deletes)); err != nil {
+	if err := m.Hook.enterCtx(ctx, "Update", updateDesc(writes, deletes), len(writes)+len(deletes)); err != nil {
 		m.Hook.exit("Update", "", err)
 		return err
 	}
@@ -458,4 +468,40 @@ func (m *MemMeta) Metadata(ptr string) (bs.FileMetadata, bool) {
 	defer m.mu.Unlock()
 	md, ok := m.files[ptr]
 	return md, ok
+}
+
+// ---- harness observation without synchronisation -------------------------------------
+// Under the controlled scheduler exactly one task runs at a time, so oracles may read the
+// stores without taking their (scheduler-visible) mutexes and thereby without adding
+// scheduling points. The free-running build must use the locked accessors instead.
+
+// PointersNoLock is Pointers without locking.
+func (m *MemMeta) PointersNoLock() []string { return append([]string(nil), m.order...) }
+
+// MetadataNoLock is Metadata without locking.
+func (m *MemMeta) MetadataNoLock(ptr string) (bs.FileMetadata, bool) {
+	md, ok := m.files[ptr]
+	return md, ok
+}
+
+// BytesNoLock is Bytes without locking.
+func (d *MemData) BytesNoLock(ptr string) ([]byte, bool) {
+	b, ok := d.files[ptr]
+	return b, ok
+}
+
+// Preload publishes data under ptr and registers md (fixture setup; no hooks).
+func Preload(d *MemData, m *MemMeta, ptr string, data []byte, md bs.FileMetadata) {
+	d.files[ptr] = data
+	if _, ok := m.files[ptr]; !ok {
+		m.order = append(m.order, ptr)
+	}
+	m.files[ptr] = md
+	if n := len(ptr); n > 1 {
+		var k int
+		fmt.Sscanf(ptr[1:], "%d", &k)
+		if k > d.seq {
+			d.seq = k
+		}
+	}
 }
